@@ -150,8 +150,7 @@ impl Decoder for RawMapOperationDecoder {
                         problem: Text::from(format!("{}{}", BAD_RECORD_SIZE, total_len)),
                     }));
                 }
-                let required = LEN_SIZE + total_len;
-                if src.remaining() < required {
+                if src.remaining() - LEN_SIZE < total_len {
                     return Ok(None);
                 }
                 src.advance(LEN_SIZE);
@@ -159,7 +158,7 @@ impl Decoder for RawMapOperationDecoder {
                 frame.advance(TAG_SIZE);
                 let key_len = frame.get_u64() as usize;
 
-                if key_len + LEN_SIZE + TAG_SIZE > total_len {
+                if key_len > total_len - LEN_SIZE - TAG_SIZE {
                     return Err(FrameIoError::BadFrame(InvalidFrame::InvalidHeader {
                         problem: Text::from(format!("{}{}", BAD_KEY_SIZE, key_len)),
                     }));
@@ -175,8 +174,7 @@ impl Decoder for RawMapOperationDecoder {
                         problem: Text::from(format!("{}{}", BAD_RECORD_SIZE, total_len)),
                     }));
                 }
-                let required = LEN_SIZE + total_len;
-                if src.remaining() < required {
+                if src.remaining() - LEN_SIZE < total_len {
                     return Ok(None);
                 }
                 src.advance(LEN_SIZE);
@@ -231,8 +229,9 @@ impl<K: RecognizerReadable, V: RecognizerReadable> Decoder for MapOperationDecod
                                 break Ok(None);
                             }
                             let key_len = header.get_u64() as usize;
-                            let value_len = if let Some(l) =
-                                total_len.checked_sub(key_len + LEN_SIZE + TAG_SIZE)
+                            let value_len = if let Some(l) = total_len
+                                .checked_sub(LEN_SIZE + TAG_SIZE)
+                                .and_then(|l| l.checked_sub(key_len))
                             {
                                 l
                             } else {
